@@ -356,6 +356,11 @@ func TestC12(t *testing.T) {
 				}
 			}
 			reps = append(reps, r)
+			if rapid.IntRange(0, 4).Draw(rt, "repeat") == 0 {
+				// the very same report again (the pointer reported twice in one cell)
+				reps = append(reps, r)
+				text = append(text, "")
+			}
 			if rapid.IntRange(0, 3).Draw(rt, "txt") == 0 {
 				text = append(text, rapid.SampledFrom([]string{"a", "M", "m", "<", ";", "é", "0"}).Draw(rt, "t"))
 			} else {
